@@ -195,7 +195,10 @@ def kernel_gradients(ctx, rng, q):
             if (np.abs(o1 - o2) > vt).any() or (np.abs(o1 - oref) > vt).any():
                 ctx.fail(f"{name}/fast-vs-generic-value", f"{name}: fast path and generic path values differ by "
                          f"{np.abs(o1 - o2).max():.3e} (vs dense {np.abs(o1 - oref).max():.3e})", desc)
-            if any(bad(a, b, 1e-7, 1e-8) for a, b in zip(gf, gg)):
+            # the generic path has no diagonal zero-fill when inputs require grad: coincident rows are at distance
+            # ~sqrt(rounding) instead of 0 there; first-order effect on the lengthscale gradient
+            gslack = float((np.abs(go.reshape(extra.shape)) * extra).sum()) / min(abs(x) for x in desc["ell"]) * 4
+            if any(not np.allclose(a, b, rtol=1e-7, atol=1e-8 * sc_ + gslack) for a, b in zip(gf, gg)):
                 ctx.fail(f"{name}/fast-vs-generic-gradient",
                          f"{name}: hyperparameter gradients of the fast path {[g.tolist() for g in gf]} and of the generic "
                          f"path {[g.tolist() for g in gg]} differ", desc)
@@ -479,8 +482,11 @@ def ciq(ctx, rng, q):
         gm = _t([[rng.gauss(0, 1) for _ in range(nb)] for _ in range(B)])
         gv = _t([[rng.gauss(0, 1) for _ in range(nb)] for _ in range(B)])
         gk = _t([rng.gauss(0, 1) for _ in range(B)])
+        shared = bool(batch) and rng.random() < 0.4     # batched data, ONE variational distribution (broadcast)
         if not batch:
             S, m, kk, gm, gv, gk = S[0], m[0], kk[0], gm[0], gv[0], gk[0]
+        elif shared:
+            S, m = S[0], m[0]
         prec = torch.linalg.inv(S)
         nat_vec = (prec @ m.unsqueeze(-1)).squeeze(-1)
         nat_mat = -0.5 * prec
@@ -497,11 +503,23 @@ def ciq(ctx, rng, q):
         ref_var = (kk * (S @ kk)).sum(-2)
         cond = float(torch.linalg.cond(S).max())
         resid = max(float((im.detach() - ref_mean).abs().max()), float((iv.detach() - ref_var).abs().max()))
-        desc = {"n": n, "nb": nb, "batch": batch, "S": S.tolist(), "m": m.tolist(), "k": kk.tolist(),
+        desc = {"n": n, "nb": nb, "batch": batch, "shared_params": shared, "S": S.tolist(), "m": m.tolist(), "k": kk.tolist(),
                 "gm": gm.tolist(), "gv": gv.tolist(), "gk": gk.tolist()}
-        ctx.case({"ciq": desc}, sample={"function": "_NgdInterpTerms.backward", "n": n, "data": nb, "batch": batch})
-        if resid > 1e-8 * cond:
-            ctx.assumption(f"linear_cg inside _NgdInterpTerms.forward: residual {resid:.2e} (cond {cond:.1e}) — case skipped")
+        ctx.case({"ciq": desc}, sample={"function": "_NgdInterpTerms.backward", "n": n, "data": nb, "batch": batch,
+                                        "shared_params": shared})
+        ctx.count("ciq_broadcast_params" if shared else "ciq_plain")
+        # the same linear_cg call as in forward: all solves (also the natural_vec column, which only the backward uses)
+        from linear_operator.utils.linear_cg import linear_cg
+        P_ = -2.0 * nat_mat
+        rhs_ = torch.cat([nat_vec.expand(*kk.shape[:-2], n).unsqueeze(-1), kk], dim=-1)
+        with warnings.catch_warnings():
+            warnings.simplefilter("ignore")
+            sol_ = linear_cg(P_.matmul, rhs_, n_tridiag=0, max_iter=200, tolerance=1e-13, max_tridiag_iter=20,
+                             preconditioner=lambda x: x / P_.diagonal(dim1=-1, dim2=-2).unsqueeze(-1))
+        resid = max(resid, float((sol_ - S @ rhs_).abs().max()))
+        if resid > 1e-9 * cond:
+            ctx.assumption(f"linear_cg inside _NgdInterpTerms.forward: solve error {resid:.2e} (cond {cond:.1e}) at "
+                           f"tolerance 1e-13 — linear_operator accuracy, case skipped")
             ctx.count("ciq_cg_not_converged")
             continue
         # explicit dense map of the expectation parameters, differentiated by autograd
@@ -512,6 +530,8 @@ def ciq(ctx, rng, q):
         mean_ = (k_.transpose(-1, -2) @ e1.unsqueeze(-1)).squeeze(-1)
         var_ = (k_ * (S_ @ k_)).sum(-2)
         kl_ = 0.5 * (-torch.logdet(S_) + e2.diagonal(dim1=-1, dim2=-2).sum(-1) - n)
+        if shared:
+            kl_ = kl_.expand(2)
         r_k, r_1, r_2 = torch.autograd.grad([mean_, var_, kl_], [k_, e1, e2], grad_outputs=[gm, gv, gk])
         r_2 = 0.5 * (r_2 + r_2.transpose(-1, -2))
         sc = max(1.0, float(r_k.abs().max()), float(r_1.abs().max()), float(r_2.abs().max()))
@@ -525,6 +545,8 @@ def ciq(ctx, rng, q):
         # Lean model: data terms only (one data point, no KL), exact
         for b in range(B):
             sel = (lambda t: t[b]) if batch else (lambda t: t)
+            if shared:
+                break
             j = rng.randrange(nb)
             kcol = sel(kk)[:, j].tolist()
             h = q.ask(f"NGD {K5.mat([[v] for v in kcol])} {K5.mat([[v] for v in sel(m).tolist()])} "
